@@ -239,9 +239,32 @@ class MonteCarloEvaluator(Evaluator):
         return result_data_set
 
 
+class _Operand:
+    """An operand as seen by the differentiators
+
+    The value of an operand is evaluated from its formula at the current values of the source
+    measurements. The "value" attribute of a calculated quantity cannot be used because it is
+    buffered, and, depending on the error method, may be the mean of a Monte Carlo simulation.
+
+    """
+
+    def __init__(self, operand: "dt.ExperimentalValue"):
+        self.__operand = operand
+
+    @property
+    def value(self):
+        """the value of the operand at the center values of the source measurements"""
+        return _evaluate_formula(self.__operand)
+
+    def derivative(self, other: "dt.ExperimentalValue") -> float:
+        """the derivative of the operand with respect to another value"""
+        return self.__operand.derivative(other)
+
+
 def differentiate(formula: "dt.Formula", variable: "dt.ExperimentalValue") -> float:
     """Find the derivative of a formula with respect to a variable"""
-    return __differentiator(formula.operator)(variable, *formula.operands)
+    operands = (_Operand(operand) for operand in formula.operands)
+    return __differentiator(formula.operator)(variable, *operands)
 
 
 def propagate_units(formula: "dt.Formula") -> Dict[str, dict]:
